@@ -142,6 +142,8 @@ impl Oracle for TimeoutOracle {
             Rec::Call { op: Op::ClockJump { .. }, .. } => self.clock_jumps += 1,
             Rec::Call { op: Op::ServerDrop { ep, to }, skipped: false, .. } => {
                 self.conns.remove(&(*ep, cx.addrs[*to]));
+                // whatever the server answers that address from now on belongs to a new handshake
+                self.synack_times.remove(&(*ep, cx.addrs[*to]));
             }
             Rec::Call { call, ep: Some(ep), local_ns, op: Op::Step { .. }, skipped: false, .. } => {
                 self.consumed_now.clear();
@@ -206,6 +208,11 @@ impl Oracle for TimeoutOracle {
                     AppEvent::Connect => {
                         // establishment itself is the first "heard" instant
                         self.conns.insert(key, ConnTimer { heard_ms: *local_ms, established: true, closing: false });
+                        // a retry series is one handshake: a SYN-ACK that follows the server's
+                        // Connect for the address starts the series of another handshake
+                        if let Some(a) = peer_addr {
+                            self.synack_times.remove(&(*ep, *a));
+                        }
                         if peer_addr.is_none() {
                             self.connected_clients.insert(*ep);
                             if self.syn_times.get(ep).map_or(0, |v| v.len()) >= 2 {
@@ -588,7 +595,7 @@ impl Oracle for DisconnectOracle {
                         if cx.plan.param("peer_stays_reachable", 0.0) != 0.0 {
                             if let Some((t, what)) = c.terminal.get(caller) {
                                 if what != "Disconnect" {
-                                    let d = format!("endpoint {} ended its disconnect attempt with {} at {:.3} s although its peer stayed reachable (only disconnect acknowledgements were lost, for a few seconds) and kept stepping", caller, what, *t as f64 / 1e9);
+                                    let d = format!("endpoint {} ended its disconnect attempt with {} at {:.3} s although its peer stayed reachable (only disconnect requests or acknowledgements were lost, for a few seconds) and kept stepping", caller, what, *t as f64 / 1e9);
                                     return viol(prop, "timeout_although_peer_reachable", d, 0);
                                 }
                             }
